@@ -282,6 +282,26 @@ func (fx *FnExec) elemHeapName(t types.Type) (string, Sort) {
 	return "E_" + sanitize(string(s)), ArrSort(SInt, ArrSort(SInt, s))
 }
 
+// elemAt reads element i of slice s from element heap h. For slices whose
+// shape is known (explicit constructor) plain array reads are used; for opaque
+// slice values the read goes through a named function so that quantified facts
+// about slice elements have a clean trigger.
+func (fx *FnExec) elemAt(h, s, i *Term) *Term {
+	if s.Op == "mkslc" {
+		return Select(Select(h, SlcBase(s)), Add(SlcOff(s), i))
+	}
+	es := h.S.elemSort().elemSort()
+	name := "elem_" + sanitize(string(es))
+	if !fx.c.HasDecl(name) {
+		fx.c.DeclareFun(name, []Sort{h.S, SSlc, SInt}, es)
+		hv, sv, iv := Var("h!e", h.S), Var("s!e", SSlc), Var("i!e", SInt)
+		app := App(name, es, hv, sv, iv)
+		fx.c.Axiom("definition of "+name, Forall([]*Term{hv, sv, iv},
+			Eq(app, App("select", es, App("select", h.S.elemSort(), hv, App("sbase", SInt, sv)), App("+", SInt, App("soffs", SInt, sv), iv))), app))
+	}
+	return App(name, es, h, s, i)
+}
+
 // ---------------------------------------------------------------------------
 // lvalues
 
@@ -333,7 +353,7 @@ func (fx *FnExec) load(st *State, lv *LVal, p token.Pos) *Term {
 	case "elem":
 		name, s := fx.elemHeapName(lv.ety)
 		h := fx.heapGet(st, name, s)
-		return Select(Select(h, SlcBase(lv.slc)), Add(SlcOff(lv.slc), lv.idx))
+		return fx.elemAt(h, lv.slc, lv.idx)
 	case "pcell":
 		fx.nilCheck(st, lv.ptr, p)
 		name, s := fx.pheapName(lv.ty)
@@ -1205,7 +1225,12 @@ func (fx *FnExec) typeInv(v *Term, t types.Type, alloc *Term) *Term {
 	case *types.Pointer, *types.Map:
 		return Lt(v, alloc)
 	case *types.Interface:
-		return And(Lt(IfcPtr(v), alloc), Ge(IfcTag(v), IntLit(0)), Implies(Eq(IfcTag(v), IntLit(0)), Eq(IfcPtr(v), IntLit(0))))
+		c := And(Lt(IfcPtr(v), alloc), Ge(IfcTag(v), IntLit(0)), Implies(Eq(IfcTag(v), IntLit(0)), Eq(IfcPtr(v), IntLit(0))))
+		if fx.e.allImplementersArePointers(t, u) {
+			// typed nil pointers inside interface values are excluded (standing assumption A9)
+			c = And(c, Implies(Neq(IfcTag(v), IntLit(0)), Neq(IfcPtr(v), IntLit(0))))
+		}
+		return c
 	case *types.Struct:
 		si := fx.e.structOf(t)
 		var cs []*Term
@@ -1227,6 +1252,12 @@ func (fx *FnExec) typeInvQ(v *Term, t types.Type) *Term {
 
 // bytesInRange: all elements of a byte array are in 0..255.
 func (fx *FnExec) bytesInRange(arr *Term) *Term {
+	if strings.Contains(arr.String(), "ite") {
+		arr = fx.c.Name("sarr", arr)
+		if strings.Contains(arr.String(), "ite") {
+			return True
+		}
+	}
 	k := Var("k!b", SInt)
 	sel := App("select", SInt, arr, k)
 	return Forall([]*Term{k}, And(Le(IntLit(0), sel), Le(sel, IntLit(255))), sel)
